@@ -3,20 +3,189 @@
    Statements are about the executable models of SC.C07.Model instantiated at the real numbers
    (`ROps`): they say what the code computes in exact arithmetic, for data of EVERY size.  The same
    generic definitions instantiated at binary64 are what the correspondence check runs against
-   src/linear/{linear_regression,ridge_regression}.rs.  Rounding-error bounds are not theorems. *)
+   src/linear/{linear_regression,ridge_regression}.rs.  Rounding-error bounds are not theorems.
+
+   Vocabulary (C07/ProofsFit.v, ProofsSolve.v, ProofsMain.v):
+     wfR X                 the DenseMatrix value is well formed (|values| = nrows * ncols)
+     residual X y w b i    y_i - (sum_k X_ik w_k0 + b)                      (training residual)
+     objective X y a w b   sum_i (y_i - sum_k X_ik w_k - b)^2 + a sum_k w_k^2
+     objective_std Z y a mu sd w b   the same objective over the standardised columns Z, at the
+                           coefficients sd_k w_k and the intercept b + sum_k mu_k w_k, i.e. as a
+                           function of the REPORTED (raw) coefficients and intercept
+     lsq_solver s          whatever s returns for a tall system satisfies the normal equations
+     exact_spd_solver s    whatever s returns for a symmetric positive-definite system solves it
+     svd_postcondition     orthonormal U, V, thresholded singular values, U diag(s) V^T = A *)
 From Coq Require Import List Arith Bool Reals Lra Lia.
-From SC Require Import Base.Num C01.Model C01.Proofs C03.ProofsBase C07.Model C07.ProofsObj C07.ProofsFit.
+From SC Require Import Base.Num C01.Model C01.Proofs C01.Proofs_svd C03.ProofsBase
+     C07.Model C07.ProofsObj C07.ProofsFit C07.ProofsRidge C07.ProofsSolve C07.ProofsOLS C07.ProofsMain.
 Import ListNotations.
 Open Scope R_scope.
 
+Local Notation get := (D.get ROps).
+
+(* ============================== ordinary least squares ============================== *)
+(* LinearRegression::fit with ANY least-squares solver, n > p: the residual y - y_hat is orthogonal
+   to every column of X and sums to zero, and (w, b) minimises |y - X w - b|^2 over all (w', b'). *)
+Theorem C07_ols_normal_equations : forall solver (X : dm R) (y : list R) wm b,
+  wfR X -> (ncols X < nrows X)%nat -> lsq_solver solver ->
+  ols_fit ROps solver X y = Some (wm, b) ->
+  length y = nrows X /\ nrows wm = ncols X /\ ncols wm = 1%nat /\
+  (forall j, (j < ncols X)%nat -> rsum (nrows X) (fun i => get X i j * residual X y wm b i) = 0) /\
+  rsum (nrows X) (fun i => residual X y wm b i) = 0 /\
+  (forall w' b', objective X y 0 (colf wm) b <= objective X y 0 w' b').
+Proof. exact ols_normal_equations. Qed.
+
+(* the QR path end to end (qr_mut + QR::solve of C01 behind the entry point's shape tests):
+   no hypothesis on the solver is left *)
+Theorem C07_ols_qr_exact : forall (X : dm R) (y : list R) wm b,
+  wfR X -> (ncols X < nrows X)%nat ->
+  ols_fit ROps (qr_solve_mut ROps) X y = Some (wm, b) ->
+  (forall j, (j < ncols X)%nat -> rsum (nrows X) (fun i => get X i j * residual X y wm b i) = 0) /\
+  rsum (nrows X) (fun i => residual X y wm b i) = 0.
+Proof.
+  intros X y wm b Hwf Hnp Hfit.
+  destruct (ols_normal_equations _ X y wm b Hwf Hnp qr_lsq_solver Hfit) as (_ & _ & _ & H1 & H2 & _).
+  split; assumption.
+Qed.
+(* the SVD path: for EVERY factorisation routine with the SVD's post-condition (C01 proves the
+   post-condition for the tail of svd_mut only, not for the sweeps: this is the inherited gap) *)
+Theorem C07_ols_svd_exact : forall eps fact (X : dm R) (y : list R) wm b,
+  svd_postcondition eps fact -> wfR X -> (ncols X < nrows X)%nat ->
+  ols_fit ROps (svd_solve_with ROps fact eps) X y = Some (wm, b) ->
+  (forall j, (j < ncols X)%nat -> rsum (nrows X) (fun i => get X i j * residual X y wm b i) = 0) /\
+  rsum (nrows X) (fun i => residual X y wm b i) = 0.
+Proof.
+  intros eps fact X y wm b Hp Hwf Hnp Hfit.
+  destruct (ols_normal_equations _ X y wm b Hwf Hnp (svd_lsq_solver eps fact Hp) Hfit) as (_ & _ & _ & H1 & H2 & _).
+  split; assumption.
+Qed.
+
+(* ================================= ridge regression ================================= *)
+(* normalize = false: raw columns, intercept exactly 0; the gradient of
+   |y - X w|^2 + alpha |w|^2 vanishes at the reported w, which is the unique minimiser. *)
+Theorem C07_ridge_gradient_zero_raw : forall solver eps (X : dm R) (y : list R) alpha wm b,
+  wfR X -> 0 < alpha -> exact_spd_solver solver ->
+  ridge_fit ROps solver eps X y alpha false = Some (wm, b) ->
+  b = 0 /\ nrows wm = ncols X /\ ncols wm = 1%nat /\
+  (forall j, (j < ncols X)%nat ->
+     alpha * get wm j 0%nat - rsum (nrows X) (fun i => get X i j * residual X y wm 0 i) = 0) /\
+  (forall w', objective X y alpha (colf wm) 0 <= objective X y alpha w' 0) /\
+  (forall w', objective X y alpha w' 0 <= objective X y alpha (colf wm) 0 ->
+     forall k, (k < ncols X)%nat -> w' k = get wm k 0%nat).
+Proof. exact ridge_raw_minimiser. Qed.
+
+(* normalize = true: columns standardised by the column mean and the (population) standard
+   deviation, coefficients divided by the deviation, intercept = mean y - sum_k w_k mu_k.  In the
+   standardised coordinates the residual of the REPORTED model sums to zero (unpenalised
+   intercept), the penalised gradient alpha sd_j w_j - sum_i Z_ij r_i vanishes, and (w, b) is the
+   unique minimiser of the standardised objective. *)
+Theorem C07_ridge_gradient_zero_normalized : forall solver eps (X : dm R) (y : list R) alpha wm b,
+  0 < eps -> wfR X -> 0 < alpha -> exact_spd_solver solver ->
+  ridge_fit ROps solver eps X y alpha true = Some (wm, b) ->
+  exists Z mu sd, rescale_x ROps eps X = Some (Z, mu, sd) /\
+    nrows Z = nrows X /\ ncols Z = ncols X /\ nrows wm = ncols X /\ ncols wm = 1%nat /\
+    (forall j, (j < ncols X)%nat ->
+       nth j mu 0 = rsum (nrows X) (fun i => get X i j) / INR (nrows X) /\
+       nth j sd 0 = sqrt (rsum (nrows X) (fun i => (get X i j - nth j mu 0) ^ 2) / INR (nrows X)) /\
+       nth j sd 0 <> 0) /\
+    (forall i j, (i < nrows X)%nat -> (j < ncols X)%nat -> get Z i j = (get X i j - nth j mu 0) / nth j sd 0) /\
+    (forall i, (i < nrows X)%nat ->
+       residual X y wm b i
+       = nth i y 0 - rsum (ncols X) (fun k => get Z i k * (get wm k 0%nat * nth k sd 0))
+         - (b + rsum (ncols X) (fun k => get wm k 0%nat * nth k mu 0))) /\
+    (forall j, (j < ncols X)%nat ->
+       alpha * (get wm j 0%nat * nth j sd 0) - rsum (nrows X) (fun i => get Z i j * residual X y wm b i) = 0) /\
+    rsum (nrows X) (fun i => residual X y wm b i) = 0 /\
+    (forall w' b', objective_std Z y alpha mu sd (colf wm) b <= objective_std Z y alpha mu sd w' b') /\
+    (forall w' b', objective_std Z y alpha mu sd w' b' <= objective_std Z y alpha mu sd (colf wm) b ->
+       (forall k, (k < ncols X)%nat -> w' k = get wm k 0%nat) /\ b' = b).
+Proof. exact ridge_norm_minimiser. Qed.
+
+(* strict convexity on its own: a stationary point of the ridge objective (alpha > 0, at least one
+   row) is its unique global minimiser — the index-level statement behind the two theorems above *)
+Theorem C07_ridge_unique_minimiser : forall n p (Z : nat -> nat -> R) (y : nat -> R) alpha w c,
+  0 < alpha -> (0 < n)%nat ->
+  (forall j, (j < p)%nat -> grad_w n p Z y alpha w c j = 0) -> grad_c n p Z y w c = 0 ->
+  (forall w' c', obj n p Z y alpha w c <= obj n p Z y alpha w' c') /\
+  (forall w' c', obj n p Z y alpha w' c' <= obj n p Z y alpha w c ->
+     (forall k, (k < p)%nat -> w' k = w k) /\ c' = c).
+Proof.
+  intros n p Z y alpha w c Ha Hn Hg Hc. split.
+  - exact (stationary_min n p Z y alpha (Rlt_le _ _ Ha) w c Hg Hc).
+  - exact (stationary_unique n p Z y alpha (Rlt_le _ _ Ha) w c Ha Hn Hg Hc).
+Qed.
+
+(* the Cholesky path end to end (C01's cholesky + Cholesky::solve behind the entry point's shape
+   tests): exact on every system `fit` builds with alpha > 0, and it always returns there *)
+Theorem C07_cholesky_solver_exact : exact_spd_solver (cholesky_solve_mut ROps) /\ total_spd_solver (cholesky_solve_mut ROps).
+Proof. split; [exact cholesky_exact_spd | exact cholesky_total_spd]. Qed.
+Theorem C07_ridge_cholesky_returns : forall eps (X : dm R) (y : list R) alpha,
+  wfR X -> 0 < alpha -> (ncols X < nrows X)%nat -> length y = nrows X ->
+  exists wm b, ridge_fit ROps (cholesky_solve_mut ROps) eps X y alpha false = Some (wm, b).
+Proof. intros eps X y alpha H1 H2 H3 H4. exact (ridge_fit_raw_total _ eps X y alpha H1 H2 H3 H4 cholesky_total_spd). Qed.
+(* the SVD path on the ridge system, for every factorisation with the SVD's post-condition *)
+Theorem C07_svd_solver_exact : forall eps fact, svd_postcondition eps fact ->
+  exact_spd_solver (svd_solve_with ROps fact eps).
+Proof. exact svd_exact_spd. Qed.
+
+(* "the Cholesky and SVD solvers agree": any two solvers that are exact on symmetric
+   positive-definite systems return the same coefficients and intercept (exact arithmetic) *)
+Theorem C07_ridge_solvers_agree : forall s1 s2 eps (X : dm R) (y : list R) alpha normalize w1 b1 w2 b2,
+  0 < eps -> wfR X -> 0 < alpha -> exact_spd_solver s1 -> exact_spd_solver s2 ->
+  ridge_fit ROps s1 eps X y alpha normalize = Some (w1, b1) ->
+  ridge_fit ROps s2 eps X y alpha normalize = Some (w2, b2) ->
+  (forall k, (k < ncols X)%nat -> get w1 k 0%nat = get w2 k 0%nat) /\ b1 = b2.
+Proof. exact ridge_solvers_agree. Qed.
+
+(* ===================================== predict ===================================== *)
 (* predict(X) = X w + b row by row, for both estimators (they share the code): whenever the
    coefficient matrix is (ncols X) x 1 the call returns one value per row of X, the i-th being
    sum_k X_ik w_k + b; with another number of coefficient rows it panics. *)
 Theorem C07_predict_affine : forall (X w : dm R) (b : R), ncols X = nrows w -> ncols w = 1%nat ->
   exists yh, predict ROps X w b = Some yh /\ length yh = nrows X /\
     forall i, (i < nrows X)%nat ->
-      nth i yh 0 = rsum (ncols X) (fun k => D.get ROps X i k * D.get ROps w k 0%nat) + b.
+      nth i yh 0 = rsum (ncols X) (fun k => get X i k * get w k 0%nat) + b.
 Proof. exact predict_spec. Qed.
 Theorem C07_predict_shape_mismatch : forall (X w : dm R) (b : R), ncols X <> nrows w ->
   predict ROps X w b = None.
 Proof. exact predict_none. Qed.
+
+(* ============================ the stationarity validator ============================ *)
+(* check_stationary (run inside Coq on the implementation's coefficients by the correspondence
+   check, at binary64) is sound over the reals: acceptance bounds every gradient component by
+   tol times its rounding scale. *)
+Theorem C07_check_stationary_sound : forall (Z : dm R) y alpha w c free tol,
+  check_stationary ROps Z y alpha w c free tol = true ->
+  (forall j, (j < ncols Z)%nat ->
+     Rabs (grad_w (nrows Z) (ncols Z) (get Z) (vecf y) alpha (vecf w) c j)
+     <= tol * scale_w ROps (nrows Z) (ncols Z) Z y alpha w c j) /\
+  (if free then Rabs (grad_c (nrows Z) (ncols Z) (get Z) (vecf y) (vecf w) c)
+                <= tol * scale_c ROps (nrows Z) (ncols Z) Z y w c
+   else c = 0).
+Proof. exact check_stationary_sound. Qed.
+
+(* ================================ satisfiability ================================ *)
+(* a concrete design: X = (1, 2, 4)^T, y = (1, 0, 2), alpha = 1 *)
+Definition ex_X : dm R := D.mkdm 3 1 [1; 2; 4].
+Example C07_ridge_instance : forall eps,
+  wfR ex_X /\ (ncols ex_X < nrows ex_X)%nat /\ exact_spd_solver (cholesky_solve_mut ROps) /\
+  exists wm b, ridge_fit ROps (cholesky_solve_mut ROps) eps ex_X [1; 0; 2] 1 false = Some (wm, b).
+Proof.
+  intros eps. assert (Hwf : wfR ex_X) by reflexivity.
+  split; [exact Hwf|]. split; [cbn; lia|]. split; [exact cholesky_exact_spd|].
+  apply (ridge_fit_raw_total _ eps ex_X [1; 0; 2] 1 Hwf); [lra | cbn; lia | reflexivity | exact cholesky_total_spd].
+Qed.
+(* the solver contracts are met by the modelled solvers, and a stationary point exists:
+   Z = (1, -1)^T, y = (1, -1), alpha = 1, w = 1/3... checked directly: n = 2, p = 1, w = 2/3, c = 0 *)
+Example C07_stationary_instance :
+  let Z := fun (i k : nat) => if Nat.eqb i 0 then 1 else -1 in
+  let y := fun i : nat => if Nat.eqb i 0 then 1 else -1 in
+  (forall j, (j < 1)%nat -> grad_w 2 1 Z y 1 (fun _ => 2 / 3) 0 j = 0) /\ grad_c 2 1 Z y (fun _ => 2 / 3) 0 = 0.
+Proof.
+  cbv zeta. split.
+  - intros j Hj. unfold grad_w, res, rsum. cbn. field.
+  - unfold grad_c, res, rsum. cbn. field.
+Qed.
+Example C07_lsq_solver_instances : lsq_solver (qr_solve_mut ROps) /\
+  (forall eps fact, svd_postcondition eps fact -> lsq_solver (svd_solve_with ROps fact eps)).
+Proof. split; [exact qr_lsq_solver | exact svd_lsq_solver]. Qed.
